@@ -4,6 +4,7 @@ package checks
 
 import (
 	"bytes"
+	"context"
 	"crypto/sha256"
 	"fmt"
 	"os"
@@ -192,7 +193,7 @@ func c05Run(img memfs.Image, calls []string, failAt int, failMode string) *c05Tr
 	return tr
 }
 
-var bgCtx = world.New().Ctx
+var bgCtx = context.Background()
 
 type c05Stats struct {
 	runs, ops, snaps, images, distinct, loads, loadsOld, loadsNew, faults, tmpImages, maxPending int64
